@@ -12,6 +12,9 @@ use std::hash::{Hash, Hasher};
 use std::path::Path;
 use std::sync::atomic::{AtomicU64, Ordering};
 use std::sync::Arc;
+#[cfg(pgcat_verif)]
+use simcore::fs::File;
+#[cfg(not(pgcat_verif))]
 use tokio::fs::File;
 use tokio::io::AsyncReadExt;
 
